@@ -237,6 +237,32 @@ class ClassicOptimize(OutputOptimize):
     spec = {'quick': dict(leaves=(1, 2, 3, 4), envs=(['L', 'L'],)), 'thorough': dict(leaves=(1, 2, 3, 4, 5), envs=(['L', 'L'], ['L', ['L', 'L']]))}
     loop_bound = 300
 
+    # skeletons of the change-of-variables rule, (a (q . BODY) (c X (q . DATA))): operators fixed, paths and data symbolic
+    _QD = lambda data: ['A', data]                                   # (q . data)
+    SKELETONS = [
+        # (a (q . P) (c X (q . ((OP Y)))))      atoms: a q P c X q OP Y
+        dict(prog=['A', [['A', 'A'], [['A', ['A', [['A', [['A', ['A', 'N']], 'N']], 'N']]], 'N']]], fix=[2, 1, None, 4, None, 1, None, None]),
+        # (a (q . P) (c (q . ((OP))) X))        atoms: a q P c q OP X
+        dict(prog=['A', [['A', 'A'], [['A', [['A', [['A', 'N'], 'N']], ['A', 'N']]], 'N']]], fix=[2, 1, None, 4, 1, None, None]),
+        # (a (q . (OP P1 P2)) (c X Y))          atoms: a q OP P1 P2 c X Y
+        dict(prog=['A', [['A', ['A', ['A', ['A', 'N']]]], [['A', ['A', ['A', 'N']]], 'N']]], fix=[2, 1, None, None, None, 4, None, None]),
+    ]
+
+    def cases(self, tier):
+        for c in OutputOptimize.cases(self, tier):
+            yield c
+        sp = self.spec[tier]
+        for sk in self.SKELETONS:
+            yield dict(prog=sk['prog'], env=sp['envs'][-1], fix=sk['fix'])
+
+    def vectors(self, case, rnd):
+        vs = OutputOptimize.vectors(self, case, rnd)
+        for v in vs:
+            for i, x in enumerate(case.get('fix') or []):
+                if x is not None:
+                    v['atoms'][i] = x
+        return vs
+
     @staticmethod
     def has_pair_head(lsh):
         if not isinstance(lsh, list):
@@ -253,6 +279,9 @@ class ClassicOptimize(OutputOptimize):
         for b in inp['atoms']:
             if b.c is None:
                 eng.assume(z3.Or(*[b.e == v for v in ALPHABET]))
+        for i, x in enumerate(case.get('fix') or []):
+            if x is not None and inp['atoms'][i].c is None:
+                eng.assume(inp['atoms'][i].e == x)
         prog = build_prog(case['prog'], iter(inp['atoms']))
         env = build_tree(case['env'], iter(inp['env']))
         alloc = Ref(Cell(Struct('Allocator', [])))
